@@ -84,8 +84,12 @@ package dutydb
 //@ ensures forallk(k, old(db.attPubKeys), has(db.attPubKeys, k) && db.attPubKeys[k] == old(db.attPubKeys)[k])
 //@ canary result != nil
 
+// every entry that is accepted was hashed and, when its key is already taken (by an earlier call or earlier in this
+// one), compared with what is stored: the clash check is never skipped
 //@ func (db *MemDB) storeSyncContributionEntryUnsafe
 //@ props C06 C01
+//@ ensures result == nil ==> ncalls(contrib.HashTreeRoot) == 1
+//@ ensures result == nil ==> ncalls(existing.HashTreeRoot) == 1 || len(db.contribDuties) == len(old(db.contribDuties)) + 1
 //@ assigns db.contribDuties, db.contribKeysBySlot
 //@ ensures forallk(k, old(db.contribDuties), has(db.contribDuties, k) && db.contribDuties[k] == old(db.contribDuties)[k])
 //@ ensures result != nil ==> db.contribDuties == old(db.contribDuties)
